@@ -107,6 +107,12 @@ def Lib.Admissible (ℓ : Lib) : Payload → Prop
   | .sa ps => PropsAdmissible ℓ.props ps
   | _ => True
 
+/-- admissible liberties for a payload list: the `i`-th choice is admissible for the `i`-th payload -/
+def LibsAdmissible : List Lib → List Payload → Prop
+  | _, [] => True
+  | [], _ :: _ => True
+  | ℓ :: ls, p :: ps => ℓ.Admissible p ∧ LibsAdmissible ls ps
+
 /-! ### §3.3 Security Association -/
 
 /-- §3.3.5 transform attribute: `AF | type (15 bits)` then either the 16-bit value
@@ -285,5 +291,69 @@ def encode (ls : List Lib) (m : Msg) : Res Bytes := do
 
 /-- the strict sender -/
 def canonical : List Lib := []
+
+/-! ### independent framing walks (used to STATE well-formedness of an encoder's output)
+
+These read a byte string along its length fields only; they know nothing about
+the encoders above. -/
+
+/-- walk a payload chain whose first payload has type `t`: the (type, flag octet,
+body) of every payload, in order.  `none` when the framing is broken: octets
+after a payload whose Next Payload field is 0, a truncated generic header, a
+length field below 4 or beyond the end, or a chain whose last Next Payload
+field is not 0.  (`fuel` ≥ length of `b` suffices.) -/
+def walkChain : Nat → UInt8 → Bytes → Option (List (UInt8 × UInt8 × Bytes))
+  | _, t, [] => if t = 0 then some [] else none
+  | 0, _, _ :: _ => none
+  | fuel + 1, t, b@(_ :: _) =>
+    if t = 0 then none else
+    if b.length < 4 then none else
+    let len := (byteAt b 2).toNat * 256 + (byteAt b 3).toNat
+    if len < 4 then none else
+    if len > b.length then none else
+    match walkChain fuel (byteAt b 0) (b.drop len) with
+    | some tl => some ((t, byteAt b 1, (b.take len).drop 4) :: tl)
+    | none => none
+
+/-- walk a list of substructures (proposals: `more` = 2, transforms: `more` = 3):
+the extent of every substructure, in order.  `none` when a length field is
+below 4 or beyond the end, or when the first octet of a substructure is not
+0 for the last one (the one that ends where the list ends) and `more` for the others. -/
+def walkSubs (more : UInt8) : Nat → Bytes → Option (List Bytes)
+  | _, [] => some []
+  | 0, _ :: _ => none
+  | fuel + 1, b@(_ :: _) =>
+    if b.length < 4 then none else
+    let len := (byteAt b 2).toNat * 256 + (byteAt b 3).toNat
+    if len < 4 then none else
+    if len > b.length then none else
+    if byteAt b 0 ≠ (if len = b.length then 0 else more) then none else
+    match walkSubs more fuel (b.drop len) with
+    | some tl => some (b.take len :: tl)
+    | none => none
+
+/-- what the chain walk is expected to see for payloads `ps` written under `ls` -/
+def chainView : List Lib → List Payload → Res (List (UInt8 × UInt8 × Bytes))
+  | _, [] => .ok []
+  | ls, p :: rest => do
+    let body ← encodeBody (ls.headD {}) p
+    let tl ← chainView ls.tail rest
+    .ok ((payloadType p, (ls.headD {}).flags, body) :: tl)
+
+/-- the encodings of the individual proposals of an SA body -/
+def proposalView : List PLib → List Proposal → Res (List Bytes)
+  | _, [] => .ok []
+  | ls, p :: rest => do
+    let h ← encodeProposal (ls.headD (PLib.canonical p)) rest.isEmpty p
+    let tl ← proposalView ls.tail rest
+    .ok (h :: tl)
+
+/-- the encodings of the individual transforms of a proposal -/
+def transformView : List (TLib × Transform) → Res (List Bytes)
+  | [] => .ok []
+  | (ℓ, t) :: rest => do
+    let h ← encodeTransform ℓ rest.isEmpty t
+    let tl ← transformView rest
+    .ok (h :: tl)
 
 end Ike.Spec
